@@ -486,7 +486,7 @@ def _f64(tok):
     return struct.unpack(">d", bytes.fromhex(tok))[0]
 
 
-def numeric_search(mism, res, label, proved, rel=1e-9, limit=5, per_token=False):
+def numeric_search(mism, res, label, proved, rel=1e-9, limit=5, per_token=False, forms=False):
     """The search for a failing input when a bit-for-bit numeric correspondence breaks. The model side is the function
     the theorems are about (`proved` says what is proved of it), so an input on which the implementation's numbers
     differ from the model's by more than rounding can explain is an input on which the implementation does not have
@@ -496,10 +496,17 @@ def numeric_search(mism, res, label, proved, rel=1e-9, limit=5, per_token=False)
     found = 0
     for i, o, m in mism or []:
         to, tm = re.split(r"[\s;|,]+", o.strip()), re.split(r"[\s;|,]+", m.strip())
-        if len(to) != len(tm):
-            continue
         pairs = [(a, b) for a, b in zip(to, tm) if HEX16.match(a) and HEX16.match(b)]
-        if not pairs or any((a != b) for a, b in zip(to, tm) if not (HEX16.match(a) and HEX16.match(b))):
+        if len(to) != len(tm) or not pairs or any((a != b) for a, b in zip(to, tm) if not (HEX16.match(a) and HEX16.match(b))):
+            # not the same terms on the same atoms with other numbers, but another FORM (a bend of the other kind, another type or
+            # environment, a term more or less). With `forms` the model's form is what the property demands as well.
+            if forms and "PANIC" not in o and "PANIC" not in m:
+                wo, wm = [t for t in to if t not in tm][:6], [t for t in tm if t not in to][:6]
+                res.violations.append((f"[{label}] the implementation's types / terms have another form than the model's ({proved}): only in the implementation "
+                                       f"{wo}, only in the model {wm}", f"{i}\nimplementation: {o}\nmodel:          {m}"))
+                found += 1
+                if found >= limit:
+                    break
             continue
         vals = [(_f64(a), _f64(b)) for a, b in pairs]
         scale = max([abs(v) for ab in vals for v in ab if math.isfinite(v)] + [1e-300])
@@ -589,6 +596,7 @@ def finish(res, level, checker_cmd, rule, explanation=None):
                        "cases_searched": res.cases}, f, indent=1)
         lines.append(f"VIOLATION property={pid} replay={rp} no-failing-input-found")
         status = 1
+    res.stats["source_hints"] = hints_env() or "none (the source is the verified baseline)"
     cov = {
         "obligations": max(len(res.obligations), 1) if level == "proof" else len(res.obligations),
         "discharged": len([d for d in res.discharged]),
